@@ -71,7 +71,7 @@ package dastard
 
 // A record is an exact excerpt: data[k] == hist[abs - presamples + k], abs = absolute index of the
 // trigger sample.  RecLabelled: the stated frame/time are the ones the source gave that sample.
-//@ pred RecOK(r *DataRecord, s *DataStream) := r != nil && allocated(r) && allocated(r.data) && 0 <= r.presamples
+//@ pred RecOK(r *DataRecord, s *DataStream) := r != nil && allocated(r) && allocated(r.data) && allocated(r.modelCoefs) && 0 <= r.presamples
 //@     && (forall p int :: {at(r.data, p)} r.data.off <= p && p < r.data.off + len(r.data) ==> at(r.data, p) == s.hist[r.abs - r.presamples + p - r.data.off])
 //@ pred RecLabelled(r *DataRecord, s *DataStream) := r.trigFrame == s.gframe[r.abs] && tns(r.trigTime) == s.gtime[r.abs]
 
@@ -103,7 +103,7 @@ package dastard
 // ---- trigger passes ----
 // LenOK: the validity rule of record lengths (at least 3 pre-trigger samples so that the edge
 // criterion can look back, at least one post-trigger sample).
-//@ pred LenOK(d *DataStreamProcessor) := d.NPresamples >= 3 && d.NSamples >= d.NPresamples + 1
+//@ pred LenOK(d *DataStreamProcessor) := d.NPresamples >= 3 && d.NSamples >= d.NPresamples + 1 && d.NSamples < 1000000000
 // RecsOK: every record in the list is an exact excerpt of this channel's stream with the
 // configured lengths; RecsLabelled: ... carrying the source's frame number and time.
 //@ pred RecsOK(rs []*DataRecord, d *DataStreamProcessor, from int) := forall p int :: {at(rs, p)} rs.off + from <= p && p < rs.off + len(rs) ==>
@@ -117,6 +117,9 @@ package dastard
 //@        && at(rs, p).abs - (d.stream.samplesSeen - len(d.stream.rawData)) >= d.NPresamples
 //@        && at(rs, p).abs - (d.stream.samplesSeen - len(d.stream.rawData)) + d.NSamples - d.NPresamples <= len(d.stream.rawData)
 
+// RecsDistinct: no record appears twice in the list.
+//@ pred RecsDistinct(rs []*DataRecord) := forall p int, q int :: {at(rs, p), at(rs, q)} rs.off <= p && p < q && q < rs.off + len(rs) ==> at(rs, p) != at(rs, q)
+
 //@ func (*DataStreamProcessor).firstPotentialTriggerFrame
 //@   props C01 C02
 //@   ensures result == max(dsp.NPresamples, dsp.LastTrigger - dsp.stream.firstFrameIndex + dsp.NSamples)
@@ -125,11 +128,12 @@ package dastard
 //@ func (*DataStreamProcessor).edgeTriggerComputeAppend
 //@   props C01 C02
 //@   requires WFStream(dsp.stream) && LenOK(dsp)
-//@   requires RecsOK(records, dsp, 0) && RecsInWin(records, dsp)
+//@   requires RecsOK(records, dsp, 0) && RecsInWin(records, dsp) && RecsDistinct(records)
 //@   requires LabelsOK(dsp.stream) ==> RecsLabelled(records, dsp, 0)
 //@   ensures grows: len(result) >= len(records) && (result.arr == records.arr || fresh(result))
 //@   ensures excerpts: RecsOK(result, dsp, 0)
 //@   ensures inwin: RecsInWin(result, dsp)
+//@   ensures distinct: RecsDistinct(result)
 //@   ensures labels: LabelsOK(dsp.stream) ==> RecsLabelled(result, dsp, 0)
 //@   modifies records[*]
 //@   loop 1
@@ -140,6 +144,7 @@ package dastard
 //@     invariant arr: records.arr == old(records.arr) || fresh(records)
 //@     invariant excerpts: RecsOK(records, dsp, 0)
 //@     invariant inwin: RecsInWin(records, dsp)
+//@     invariant distinct: RecsDistinct(records)
 //@     invariant labels: LabelsOK(dsp.stream) ==> RecsLabelled(records, dsp, 0)
 
 // sort.Sort on a record list permutes it (trusted library contract).
@@ -148,6 +153,7 @@ package dastard
 //@   ensures typeis(data, RecordSlice) ==> len(unbox(data, RecordSlice)) == old(len(unbox(data, RecordSlice)))
 //@   ensures typeis(data, RecordSlice) ==> (forall p int :: {at(unbox(data, RecordSlice), p)} unbox(data, RecordSlice).off <= p && p < unbox(data, RecordSlice).off + len(unbox(data, RecordSlice)) ==>
 //@        unbox(data, RecordSlice).off <= perm[p] && perm[p] < unbox(data, RecordSlice).off + len(unbox(data, RecordSlice)) && at(unbox(data, RecordSlice), p) == oldat(unbox(data, RecordSlice), perm[p]))
+//@   ensures injective: forall p int, q int :: {perm[p], perm[q]} p != q ==> perm[p] != perm[q]
 //@   ensures !typeis(data, RecordSlice) ==> (forall p int :: {at(unbox(data, RecordSlice), p)} at(unbox(data, RecordSlice), p) == oldat(unbox(data, RecordSlice), p))
 //@   ensures typeis(data, FrameIdxSlice) ==> (forall p int :: {at(unbox(data, FrameIdxSlice), p)} unbox(data, FrameIdxSlice).off <= p && p < unbox(data, FrameIdxSlice).off + len(unbox(data, FrameIdxSlice)) ==>
 //@        unbox(data, FrameIdxSlice).off <= perm[p] && perm[p] < unbox(data, FrameIdxSlice).off + len(unbox(data, FrameIdxSlice)) && at(unbox(data, FrameIdxSlice), p) == oldat(unbox(data, FrameIdxSlice), perm[p]))
@@ -162,11 +168,12 @@ package dastard
 //@ func (*DataStreamProcessor).levelTriggerComputeAppend
 //@   props C01 C02
 //@   requires WFStream(dsp.stream) && LenOK(dsp)
-//@   requires RecsOK(records, dsp, 0) && RecsInWin(records, dsp)
+//@   requires RecsOK(records, dsp, 0) && RecsInWin(records, dsp) && RecsDistinct(records)
 //@   requires LabelsOK(dsp.stream) ==> RecsLabelled(records, dsp, 0)
 //@   ensures grows: len(result) >= len(records) && (result.arr == records.arr || fresh(result))
 //@   ensures excerpts: RecsOK(result, dsp, 0)
 //@   ensures inwin: RecsInWin(result, dsp)
+//@   ensures distinct: RecsDistinct(result)
 //@   ensures labels: LabelsOK(dsp.stream) ==> RecsLabelled(result, dsp, 0)
 //@   modifies records[*]
 //@   loop 1
@@ -178,16 +185,18 @@ package dastard
 //@     invariant arr: records.arr == old(records.arr) || fresh(records)
 //@     invariant excerpts: RecsOK(records, dsp, 0)
 //@     invariant inwin: RecsInWin(records, dsp)
+//@     invariant distinct: RecsDistinct(records)
 //@     invariant labels: LabelsOK(dsp.stream) ==> RecsLabelled(records, dsp, 0)
 
 //@ func (*DataStreamProcessor).autoTriggerComputeAppend
 //@   props C01 C02
 //@   requires WFStream(dsp.stream) && LenOK(dsp)
-//@   requires RecsOK(records, dsp, 0) && RecsInWin(records, dsp)
+//@   requires RecsOK(records, dsp, 0) && RecsInWin(records, dsp) && RecsDistinct(records)
 //@   requires LabelsOK(dsp.stream) ==> RecsLabelled(records, dsp, 0)
 //@   ensures grows: len(result) >= len(records) && (result.arr == records.arr || fresh(result))
 //@   ensures excerpts: RecsOK(result, dsp, 0)
 //@   ensures inwin: RecsInWin(result, dsp)
+//@   ensures distinct: RecsDistinct(result)
 //@   ensures labels: LabelsOK(dsp.stream) ==> RecsLabelled(result, dsp, 0)
 //@   modifies records[*]
 //@   loop 1
@@ -196,6 +205,7 @@ package dastard
 //@     invariant arr: records.arr == old(records.arr) || fresh(records)
 //@     invariant excerpts: RecsOK(records, dsp, 0)
 //@     invariant inwin: RecsInWin(records, dsp)
+//@     invariant distinct: RecsDistinct(records)
 //@     invariant labels: LabelsOK(dsp.stream) ==> RecsLabelled(records, dsp, 0)
 //@   loop 2
 //@     invariant begin == nextPotentialTrig - npre && finish == begin + nsamp && begin < i && i <= finish
@@ -204,16 +214,18 @@ package dastard
 // ---- one trigger cycle ----
 //@ pred RecsExcerpt(rs []*DataRecord, d *DataStreamProcessor) := forall p int :: {at(rs, p)} rs.off <= p && p < rs.off + len(rs) ==> at(rs, p) != nil && RecOK(at(rs, p), d.stream)
 //@ pred SpecsInRange(sp []RecordSpec, n int, f0 FrameIndex) := forall p int :: {at(sp, p)} sp.off <= p && p < sp.off + len(sp) ==>
-//@        0 <= at(sp, p).npre && at(sp, p).npre <= at(sp, p).firstRisingFrameIndex - f0 && at(sp, p).nsamp >= 0
+//@        1 <= at(sp, p).npre && at(sp, p).npre <= at(sp, p).firstRisingFrameIndex - f0 && at(sp, p).nsamp > at(sp, p).npre && at(sp, p).nsamp < 1000000000
 //@        && at(sp, p).firstRisingFrameIndex - f0 + at(sp, p).nsamp - at(sp, p).npre <= n && at(sp, p).firstRisingFrameIndex - f0 < n
 
 //@ func (*DataStreamProcessor).edgeMultiTriggerComputeAppend
 //@   props C01 C08
 //@   requires WFStream(dsp.stream) && LenOK(dsp) && EMTValid(dsp)
-//@   requires RecsExcerpt(records, dsp)
+//@   requires RecsExcerpt(records, dsp) && RecsDistinct(records)
 //@   requires LabelsOK(dsp.stream) ==> RecsLabelled(records, dsp, 0)
 //@   ensures grows: len(result) >= len(records) && (result.arr == records.arr || fresh(result))
 //@   ensures excerpts: RecsExcerpt(result, dsp)
+//@   ensures distinct: RecsDistinct(result)
+//@   ensures lens: forall p int :: {at(result, p)} result.off + len(records) <= p && p < result.off + len(result) ==> 1 <= at(result, p).presamples && at(result, p).presamples < len(at(result, p).data) && len(at(result, p).data) < 1000000000
 //@   ensures labels: LabelsOK(dsp.stream) ==> RecsLabelled(result, dsp, 0)
 //@   ensures stream: unchanged(dsp.stream.rawData, dsp.stream.samplesSeen, dsp.stream.firstFrameIndex, dsp.stream.firstTime, dsp.stream.framesPerSample, dsp.stream.framePeriod, dsp.NSamples, dsp.NPresamples, dsp.LastTrigger)
 //@   modifies records[*], dsp.EMTState.nextFrameIndexToInspect, dsp.EMTState.t, dsp.EMTState.u, dsp.EMTState.v, dsp.EMTState.iFirstCheckSentinel
@@ -223,6 +235,8 @@ package dastard
 //@     invariant copy: stream.rawData == dsp.stream.rawData && stream.firstFrameIndex == dsp.stream.firstFrameIndex
 //@     invariant arr: records.arr == old(records.arr) || fresh(records)
 //@     invariant excerpts: RecsExcerpt(records, dsp)
+//@     invariant distinct: RecsDistinct(records)
+//@     invariant lens: forall p int :: {at(records, p)} records.off + len(old(records)) <= p && p < records.off + len(records) ==> 1 <= at(records, p).presamples && at(records, p).presamples < len(at(records, p).data) && len(at(records, p).data) < 1000000000
 //@     invariant labels: LabelsOK(dsp.stream) ==> RecsLabelled(records, dsp, 0)
 
 //@ func (*DataStreamProcessor).TriggerData
@@ -230,6 +244,7 @@ package dastard
 //@   requires WFStream(dsp.stream) && LenOK(dsp) && EMTValid(dsp)
 //@   ensures excerpts: RecsExcerpt(records, dsp)
 //@   ensures fixedlen: !dsp.EdgeMulti ==> RecsOK(records, dsp, 0) && RecsInWin(records, dsp)
+//@   ensures analyzable: RecsDistinct(records) && (forall p int :: {at(records, p)} records.off <= p && p < records.off + len(records) ==> 1 <= at(records, p).presamples && at(records, p).presamples < len(at(records, p).data) && len(at(records, p).data) < 1000000000)
 //@   ensures labels: LabelsOK(dsp.stream) ==> RecsLabelled(records, dsp, 0)
 //@   ensures stream: unchanged(dsp.stream.rawData, dsp.stream.samplesSeen, dsp.stream.firstFrameIndex, dsp.stream.firstTime, dsp.stream.framesPerSample, dsp.stream.framePeriod, dsp.NSamples, dsp.NPresamples)
 //@   ensures triglist: len(dsp.lastTrigList.frames) == len(records) && (forall k int :: {dsp.lastTrigList.frames[k]} 0 <= k && k < len(records) ==> dsp.lastTrigList.frames[k] == records[k].trigFrame)
@@ -237,6 +252,7 @@ package dastard
 //@   loop 1
 //@     invariant -1 <= rangeindex && rangeindex <= len(records) - 1 && len(trigList.frames) == len(records) && fresh(trigList.frames)
 //@     invariant excerpts: RecsExcerpt(records, dsp)
+//@     invariant analyzable: RecsDistinct(records) && (forall p int :: {at(records, p)} records.off <= p && p < records.off + len(records) ==> 1 <= at(records, p).presamples && at(records, p).presamples < len(at(records, p).data) && len(at(records, p).data) < 1000000000)
 //@     invariant done: forall k int :: {trigList.frames[k]} 0 <= k && k <= rangeindex ==> trigList.frames[k] == records[k].trigFrame
 //@     modifies trigList.frames[*]
 
@@ -247,6 +263,7 @@ package dastard
 //@   requires inrange: forall p int :: {at(secondaryTrigList, p)} secondaryTrigList.off <= p && p < secondaryTrigList.off + len(secondaryTrigList) ==>
 //@        dsp.NPresamples <= at(secondaryTrigList, p) - dsp.stream.firstFrameIndex && at(secondaryTrigList, p) - dsp.stream.firstFrameIndex + dsp.NSamples - dsp.NPresamples <= len(dsp.stream.rawData)
 //@   ensures count: len(secRecords) == len(secondaryTrigList)
+//@   ensures distinct: RecsDistinct(secRecords)
 //@   ensures excerpts: RecsOK(secRecords, dsp, 0)
 //@   ensures frames: forall k int :: {secRecords[k]} 0 <= k && k < len(secRecords) ==> secRecords[k].trigFrame == secondaryTrigList[k]
 //@   ensures labels: LabelsOK(dsp.stream) ==> RecsLabelled(secRecords, dsp, 0)
@@ -255,6 +272,7 @@ package dastard
 //@     invariant -1 <= rangeindex && rangeindex <= len(secondaryTrigList) - 1 && len(secRecords) == rangeindex + 1
 //@     invariant copy: stream.firstFrameIndex == dsp.stream.firstFrameIndex
 //@     invariant arr: secRecords.arr == 0 || fresh(secRecords)
+//@     invariant distinct: RecsDistinct(secRecords)
 //@     invariant excerpts: RecsOK(secRecords, dsp, 0)
 //@     invariant frames: forall k int :: {secRecords[k]} 0 <= k && k < len(secRecords) ==> secRecords[k].trigFrame == secondaryTrigList[k]
 //@     invariant labels: LabelsOK(dsp.stream) ==> RecsLabelled(secRecords, dsp, 0)
@@ -295,13 +313,9 @@ package dastard
 //@   modifies dsp.stream.rawData, dsp.stream.rawData[*], dsp.stream.firstFrameIndex, dsp.stream.firstTime
 
 // OffFits: while an OFF writer is installed the loaded projectors still have the number of bases the file was opened with.
+// ProjFits: loaded projectors/basis have the dimensions of the (fixed-length) records; projections are not defined for variable-length edge-multi records.
+//@ pred ProjFits(d *DataStreamProcessor) := d.projectors != nil && hasprojectors(d.projectors) ==> !d.EdgeMulti && d.basis != nil && dims0(d.projectors) >= 0 && dims1(d.basis) == dims0(d.projectors) && dims1(d.projectors) == d.NSamples && dims0(d.basis) == d.NSamples
 //@ pred OffFits(d *DataStreamProcessor) := d.OFF != nil ==> d.projectors != nil && hasprojectors(d.projectors) && dims0(d.projectors) == d.OFF.NumberOfBases
-
-//@ func (*DataStreamProcessor).AnalyzeData
-//@   trusted
-//@   ensures readable: RecsReadable(records)
-//@   ensures coefs: OffFits(dsp) && dsp.OFF != nil ==> (forall p int :: {at(records, p)} records.off <= p && p < records.off + len(records) ==> len(at(records, p).modelCoefs) == dsp.OFF.NumberOfBases)
-//@   modifies any(DataRecord).pretrigMean, any(DataRecord).pretrigDelta, any(DataRecord).pulseAverage, any(DataRecord).pulseRMS, any(DataRecord).peakValue, any(DataRecord).modelCoefs, any(DataRecord).residualStdDev
 
 // processSegment: the block is appended, triggered, analysed and published; the stream is NOT
 // trimmed here (the secondary records of this cycle are still to be cut from the same window).
@@ -309,7 +323,7 @@ package dastard
 //@   props C01 C02
 //@   requires WFStream(dsp.stream) && LenOK(dsp) && EMTValid(dsp) && !dsp.Decimate
 //@   requires segment != nil && addr(dsp.stream.DataSegment) != segment
-//@   requires writers: !IOFaults() && !QueueFull() && PubOK(dsp.DataPublisher) && OffFits(dsp)
+//@   requires writers: !IOFaults() && !QueueFull() && PubOK(dsp.DataPublisher) && OffFits(dsp) && ProjFits(dsp)
 //@   ensures window: WFStream(dsp.stream) && dsp.stream.samplesSeen == old(dsp.stream.samplesSeen) + old(len(segment.rawData)) && len(dsp.stream.rawData) == old(len(dsp.stream.rawData)) + old(len(segment.rawData))
 //@   ensures history: forall a int :: {dsp.stream.hist[a]} a < old(dsp.stream.samplesSeen) ==> dsp.stream.hist[a] == old(dsp.stream.hist[a])
 //@   ensures stamps: dsp.stream.firstFrameIndex == old(segment.firstFrameIndex) - old(len(dsp.stream.rawData)) * old(segment.framesPerSample)
@@ -326,7 +340,7 @@ package dastard
 //@ func (*DataStreamProcessor).processSecondaries
 //@   props C01 C09
 //@   requires WFStream(dsp.stream) && LenOK(dsp)
-//@   requires writers: !IOFaults() && !QueueFull() && PubOK(dsp.DataPublisher) && OffFits(dsp)
+//@   requires writers: !IOFaults() && !QueueFull() && PubOK(dsp.DataPublisher) && OffFits(dsp) && ProjFits(dsp)
 //@   requires inrange: forall p int :: {at(secondaryFrames, p)} secondaryFrames.off <= p && p < secondaryFrames.off + len(secondaryFrames) ==>
 //@        dsp.NPresamples <= at(secondaryFrames, p) - dsp.stream.firstFrameIndex && at(secondaryFrames, p) - dsp.stream.firstFrameIndex + dsp.NSamples - dsp.NPresamples <= len(dsp.stream.rawData)
 //@   ensures window: WFStream(dsp.stream) && unchanged(dsp.stream.samplesSeen, dsp.stream.rawData, dsp.stream.firstFrameIndex)
